@@ -23,8 +23,10 @@ CONTS = {"top": ("", ""), "bullet": ("- ", "  "), "quote": ("> ", "> ")}
 OPTS = [dict(width=88, semantic=False), dict(width=20, semantic=False), dict(width=20, semantic=True), dict(width=0, semantic=False), dict(width=12, semantic=True)]
 
 
-def conc(words, seps, cont):
+def conc(words, seps, cont, inner=False):
     first, cp = CONTS[cont]
+    if inner:
+        return conc(words, seps, cont).replace("`c d`", "`c  d`").replace("[l m]", "[l   m]").replace("`e f`", "`e  f`").replace("[x y]", "[x  y]").replace("`g h`", "`g   h`")
     out = [first, CONC[words[0]][0]]
     for g, s in enumerate(seps):
         sep = {"s1": " ", "s2": "   " if g % 2 else "  ", "nl": "\n" + cp, "nli": "\n" + cp + "   ", "nll": "\n"}[s]
@@ -62,7 +64,7 @@ def run(tier: str) -> int:
     res = tlc.run_tlc("Layout", tlc.cfg_text(constants=dict(consts, DoDump=True), invariants=["CanonStable", "OneSegment", "Dump"], view="view"),
                       coverage=True, timeout=3000)
     chk.add_tlc(res)
-    lay = sorted(((tuple(r[1]), tuple(r[2]), r[3]) for r in res.reports if r and r[0] == "L" and r[4]))
+    lay = sorted(((tuple(r[1]), tuple(r[2]) + (("inner",) if r[5] else ()), r[3]) for r in res.reports if r and r[0] == "L" and r[4]))
     chk.notes["admissible_layouts"] = len(lay)
     groups = {}
     for w, s, c in lay:
@@ -74,7 +76,7 @@ def run(tier: str) -> int:
             ss = [s for k, s in enumerate(ss) if (k + chk.seed + len(w)) % 4 == 0 or s == canon]
         for oi, o in enumerate(OPTS):
             for s in ss:
-                jobs.append((conc(w, s, c), o))
+                jobs.append((conc(w, s[:len(w) - 1], c, inner=len(s) == len(w)), o))
                 keys.append((w, c, s, oi))
     outs = pmap(_fmt, jobs, chunksize=500)
     by = {k: o for k, o in zip(keys, outs)}
@@ -84,14 +86,14 @@ def run(tier: str) -> int:
         chk.evaluations += 1
         canon = tuple("s1" for _ in range(len(w) - 1))
         if out.startswith("EXC:"):
-            chk.violation("NoException", dict(src=conc(w, s, c), opts=OPTS[oi], exc=out))
+            chk.violation("NoException", dict(src=conc(w, s[:len(w) - 1], c), opts=OPTS[oi], exc=out))
             continue
         if s == canon:
             continue
         tid += 1
         ref = by[(w, c, canon, oi)]
-        traces.append(dict(id=tid, words=list(w), sepsA=list(canon), sepsB=list(s), cont=c, same=(out == ref)))
-        metas[tid] = dict(kind="layout", words=list(w), layout=list(s), container=c, opts=OPTS[oi], src=conc(w, s, c), canonical_src=conc(w, canon, c),
+        traces.append(dict(id=tid, words=list(w), sepsA=list(canon), sepsB=list(s[:len(w) - 1]), cont=c, same=(out == ref)))
+        metas[tid] = dict(kind="layout", words=list(w), layout=list(s), container=c, opts=OPTS[oi], src=conc(w, s[:len(w) - 1], c, inner=len(s) == len(w)), canonical_src=conc(w, canon, c),
                           out=out, canonical_out=ref)
         chk.nontriv((w, c, s, oi))
     hjobs, hkeys = [], []
